@@ -1,7 +1,8 @@
 import Dashu.Props.C14Link
 import Dashu.Props.C14EstNoStd
 import Dashu.Props.C14I128
-/- one audit module for the two C14 extension modules (one Lean process: import cost paid once) -/
+import Dashu.Props.C14Shl
+/- one audit module for the C14 extension modules (one Lean process: import cost paid once) -/
 #print axioms Dashu.Props.C14Link.ubig_ord_mirrored
 #print axioms Dashu.Props.C14Link.ibig_ord_mirrored
 #print axioms Dashu.Props.C14Link.ibig_ord_any_repr
@@ -36,3 +37,8 @@ import Dashu.Props.C14I128
 #print axioms Dashu.Props.C14I128.mul_range
 #print axioms Dashu.Props.C14I128.repr_num_ord_float_i128
 #print axioms Dashu.Props.C14I128.repr_num_ord_float_i128_decode
+#print axioms Dashu.Props.C14Shl.shl_mirrored
+#print axioms Dashu.Props.C14Shl.shl_digits_base2_mirrored
+#print axioms Dashu.Props.C14Shl.shl_digits_pow2_mirrored
+#print axioms Dashu.Props.C14Shl.exact_step_shl_cmp_mirrored
+#print axioms Dashu.Props.C14Shl.exact_step_shl_abs_cmp_mirrored
